@@ -593,6 +593,9 @@ Definition chain_sat (w : wexpr) (ms : list mcall) (r : row) : bool :=
   wsat w r && forallb (fun f => wsat f r) (filters_of ms).
 (* window ops as count() sees them *)
 Definition falsy (v : pv) : Prop := truthy v = false.
+(* does the select carry a window?  (start non-zero, or any end -- 0 included) *)
+Definition sliced (w : pv * pv) : bool :=
+  truthy (fst w) || match snd w with VNone => false | _ => true end.
 Definition pv_of_opt (o : option Z) : pv := match o with Some z => VInt z | None => VNone end.
 
 (* Python list slicing with non-negative bounds: l[s:e] *)
